@@ -1577,15 +1577,17 @@ class XSet:
 
 
 XM_SHAPES = ["alias-incl", "alias-incl-valref", "alias-incl-valchain", "alias2-incl", "parent-chain", "direct-incl-literal",
-             "valref-across", "valchain-across", "incl-union", "size-valref", "incl-unconstrained", "two-modules"]
+             "valref-across", "valchain-across", "incl-union", "size-valref", "incl-unconstrained", "two-modules",
+             "direct-incl-type", "direct-incl-valref", "direct-incl-valchain"]
 
 
 def xmod_set(rng, tagno, shape=None):
     """one set of 2-3 module files with contained-subtype / value-reference chains across them.  Returns
-    {"mods":[{"name","text","order"}], "xs": XSet, "shape", "witness": None}.  The shapes stay clear of finding
-    C12-includes-foreign-namespace (a contained subtype naming a type of ANOTHER module whose own
-    constraints hold references): they reach the foreign type through a local alias (`X ::= Y`), which is the path
-    constraint_type_resolve -> asn1constraint_pullup walks with arg->mod = the including module."""
+    {"mods":[{"name","text","order"}], "xs": XSet, "shape", "witness": None}.  Most shapes reach the foreign type through a
+    local alias (`X ::= Y`: the path asn1constraint_pullup walks with arg->mod = the including module); the `direct-incl-*`
+    shapes name a type of ANOTHER module in the contained subtype itself, and that type's own constraint holds a
+    reference (type / value / value chain) that only its own module can resolve: the path through
+    constraint_type_resolve with a name space of the contained type's module (C12-includes-foreign-namespace, repaired)."""
     shape = shape or rng.choice(XM_SHAPES)
     k = 2 if shape == "two-modules" else 3
     xs = XSet(rng, k, tagno)
@@ -1608,6 +1610,13 @@ def xmod_set(rng, tagno, shape=None):
         y = xs.add_type(mid, [("L", lo + 1, hi - 1)], parent=y0, stem="Y")
     elif shape == "direct-incl-literal":
         y = xs.add_type(mid, [("L", lo, hi)], stem="Y")
+    elif shape == "direct-incl-type":
+        y = xs.add_type(mid, [("I", w)] + ([("L", hi + 30, hi + 40)] if rng.chance(1, 2) else []), stem="Y")
+    elif shape == "direct-incl-valref":
+        y = xs.add_type(mid, [("V", lo, wv)], stem="Y")
+    elif shape == "direct-incl-valchain":
+        yv = xs.add_value(mid, ref=wv)
+        y = xs.add_type(mid, [("V", lo, yv)], stem="Y")
     elif shape in ("valref-across", "valchain-across"):
         yv = xs.add_value(mid, ref=wv) if shape == "valchain-across" else wv
         y = xs.add_type(mid, [("V", lo, yv)], stem="Y")
@@ -1616,7 +1625,7 @@ def xmod_set(rng, tagno, shape=None):
         yv = xs.add_value(mid, ref=sv)
         y = xs.add_type(mid, [("V", 0, yv)], size=True, stem="Y")
     # the top module
-    if shape == "direct-incl-literal":
+    if shape.startswith("direct-incl-"):
         xs.add_type(top, [("I", y)] + ([("L", hi + 100, hi + 110)] if rng.chance(1, 2) else []), stem="V")
     elif shape in ("valref-across", "valchain-across"):
         tv = xs.add_value(top, ref=yv) if rng.chance(1, 2) else yv
@@ -1649,10 +1658,10 @@ def xmod_set(rng, tagno, shape=None):
 
 
 def xmod_witness(rng, tagno, kind):
-    """witnesses of finding C12-includes-foreign-namespace: module A names a type Y of module B in a contained
-    subtype constraint, and Y's own constraint holds a reference that is looked up in A's name space when A is
-    processed before B.  kind "fatal": the referenced name is unknown in A; kind "silent": A has another
-    definition of that name, which is silently taken."""
+    """text-level cases of the repaired C12-includes-foreign-namespace: module A names a type Y of module B in a contained
+    subtype constraint, and Y's own constraint holds a reference that was looked up in A's name space when A was
+    processed before B.  kind "fatal": the referenced name is unknown in A (was: FATAL in that order); kind "silent": A
+    has another definition of that name (was: silently taken).  Every order of the files must give the same result."""
     a, b, c = "Na%d" % tagno, "Nb%d" % tagno, "Nc%d" % tagno
     if kind == "fatal":
         texts = [_xm_text(a, {b: ["Yf"]}, ["Xf ::= INTEGER (INCLUDES Yf)"]),
